@@ -26,6 +26,7 @@ type specEnv struct {
 	panicVal *Term
 	where    string
 	bound    map[string]Term
+	callSite bool
 }
 
 type specError struct{ msg string }
@@ -840,6 +841,20 @@ func (x *Exec) evalCall(env *specEnv, n *ast.CallExpr, hint types.Type, cl *Clau
 			}
 		}
 		x.specFail(cl, "len of %s", exprStr(n.Args[0]))
+	case "addr":
+		// address of a struct-valued field, e.g. addr(t.mu)
+		need(1)
+		lv := x.evalLoc(env, exprStr(n.Args[0]), &Contract{File: cl.File, Line: cl.Line})
+		return st.asTerm(lv, nil)
+	case "arr":
+		// backing array of a slice
+		need(1)
+		v := x.eval(env, n.Args[0], nil, cl)
+		s, ok := v.(*SliceV)
+		if !ok {
+			x.specFail(cl, "arr() of a non-slice")
+		}
+		return s.Arr
 	case "mask":
 		need(1)
 		return app(sBV(64), types.Typ[types.Uint64], "mask", x.widen64(st, arg(0, types.Typ[types.Int])))
@@ -873,6 +888,10 @@ func (x *Exec) evalCall(env *specEnv, n *ast.CallExpr, hint types.Type, cl *Clau
 		r := arg(0, nil)
 		st.declareOnce("is_fresh", "(declare-fun is_fresh (Ref) Int)")
 		// fresh(result): allocated during the call: distinct from everything the caller had
+		if env.callSite {
+			x.freshCounter++
+			return Term{S: fmt.Sprintf("(= (is_fresh %s) %d)", r.S, x.freshCounter), Sort: sBool}
+		}
 		return Term{S: "(> (is_fresh " + r.S + ") 0)", Sort: sBool}
 	case "isNaN":
 		need(1)
@@ -976,7 +995,25 @@ func (x *Exec) evalLoc(env *specEnv, loc string, c *Contract) Val {
 		if err != nil {
 			x.specFail(cl, "bad location %s", loc)
 		}
-		v := x.eval(env, e, nil, cl)
+		var v Val
+		func() {
+			defer func() {
+				if rr := recover(); rr != nil {
+					v = nil
+				}
+			}()
+			if fp, ok := x.evalLoc(env, loc[4:len(loc)-1], c).(FieldPtr); ok {
+				ft := fp.S.Field(fp.Idx).Type()
+				if _, isStruct := under(ft).(*types.Struct); isStruct {
+					r := env.st.asTerm(fp, nil)
+					r.Typ = types.NewPointer(ft)
+					v = r
+				}
+			}
+		}()
+		if v == nil {
+			v = x.eval(env, e, nil, cl)
+		}
 		r, ok := v.(Term)
 		if !ok || r.Typ == nil {
 			x.specFail(cl, "all() needs a pointer to struct in %s", loc)
@@ -990,7 +1027,28 @@ func (x *Exec) evalLoc(env *specEnv, loc string, c *Contract) Val {
 	}
 	switch n := e.(type) {
 	case *ast.SelectorExpr:
-		base := x.eval(env, n.X, nil, cl)
+		var base Val
+		if inner, isSel := n.X.(*ast.SelectorExpr); isSel {
+			// a.b.f where a.b is a struct-valued field: address through the embedding reference
+			func() {
+				defer func() {
+					if r := recover(); r != nil {
+						base = nil
+					}
+				}()
+				if fp, ok := x.evalLoc(env, exprStr(inner), c).(FieldPtr); ok {
+					ft := fp.S.Field(fp.Idx).Type()
+					if _, isStruct := under(ft).(*types.Struct); isStruct {
+						r := env.st.asTerm(fp, nil)
+						r.Typ = types.NewPointer(ft)
+						base = r
+					}
+				}
+			}()
+		}
+		if base == nil {
+			base = x.eval(env, n.X, nil, cl)
+		}
 		var ref Term
 		switch b := base.(type) {
 		case Term:
